@@ -121,3 +121,25 @@ def run(F, R):
             R.check(bool(then) and not conc, "R27.5", "per-event-resolution-sequential:" + key, b.where(), "StreamExt::then",
                     "the per-event resolution is combined with %s: events of the same field resolve concurrently" % sorted({(c.declared or c.callee).split("::")[-1] for c in conc}))
     R.floor("R27.5", "Subscription expansions chaining a stream", n, 4)
+
+    R.rule("R27.6", "variant coverage (K2) of the subscription root walkers: collect_subscription_streams (static) and Subscription::collect_streams (dynamic) "
+                    "handle Field, FragmentSpread and InlineFragment — a fragment at the root of a subscription operation is valid GraphQL and must produce its "
+                    "fields' streams (otherwise the operation yields no response at all)")
+    from common import enum_arm_regions
+    walkers = {
+        "static": F.find(r"^async_graphql::subscription::collect_subscription_streams$", kind="fn"),
+        "dynamic": [b for b in F.find(r"^async_graphql::dynamic::subscription::\{impl#\d+\}::collect_streams$", kind="fn")],
+    }
+    for key, bs in walkers.items():
+        if not bs:
+            R.violation("R27.6", key + ":walker-anchor", "-", "subscription root walker not found")
+            continue
+        b = bs[0]
+        arms = set()
+        for (sbb, place, adt, a, other, vmap) in b.enum_switches(r"::Selection$"):
+            arms |= {v for v, t in a.items() if t is not None}
+        rec = [c for c in b.calls() if c.callee == b.defp]
+        R.check({"Field", "FragmentSpread", "InlineFragment"} <= arms and len(rec) >= 2, "R27.6", key + ":root-walker-follows-fragments", b.where(),
+                "arms %s, %d recursive descents" % (sorted(arms), len(rec)),
+                "the subscription root walker has arms %s and %d recursive calls: fields selected through a fragment at the root of a subscription get no stream, so "
+                "`subscription { ...F }` yields nothing" % (sorted(arms), len(rec)))
